@@ -900,12 +900,13 @@ fn write_missing_case(op: u8) {
 			if full == 2 { assert!(matches!(q.queue.back(), Some(ReindexEntry::Index(x)) if x.id.index_bits() == 19), "C09.N queue order follows growth order"); }
 			assert!(IX_BITS[full] as usize == 18 + full && IX_ADDR[full] == WX_NEWADDR && IX_SUB[full] == usize::MAX && IX_KEY0[full] == key[0], "C09.N the entry finally lands in the current index with the value's address");
 			assert!(matches!(r, Ok(PlanOutcome::NeedReindex)) == (full > 0) && matches!(r, Ok(PlanOutcome::Written)) == (full == 0), "C09.N growth is reported to the caller");
-			kani::cover!(full == 2);
 		} else if op <= 2 {
 			assert!(matches!(r, Ok(PlanOutcome::Skipped)) && WN_CALLS == 0 && IX_N == 0, "C14.W reference / dereference of a missing key changes nothing");
 		} else {
 			assert!(r.is_err() && WN_CALLS == 0 && IX_N == 0, "C14.W tree operations are refused on a hash column without side effects");
 		}
+		// witness (one program point for every operation kind: a cover inside one arm is unreachable in the other harnesses)
+		kani::cover!(if op == 0 { IX_FULL == 2 } else { WX_CALLS == 0 });
 	}
 	std::mem::forget(r); std::mem::forget(change); std::mem::forget(w); std::mem::forget(overlays); std::mem::forget(col);
 }
